@@ -51,6 +51,9 @@ type opRec struct {
 	MdBase    string   `json:"md_base,omitempty"`   // metadata.Base as written by the contract
 	Authority string   `json:"authority,omitempty"` // params: MsgUpdateParams.Authority
 	NewFee    []feeRec `json:"new_fee,omitempty"`   // params: the coins as written (possibly invalid)
+	// third round: kind "tx" (a whole transaction), "grant" / "revoke" (fee allowance Sender -> To)
+	Signers []string `json:"signers,omitempty"` // Metadata.Signers of a message inside a tx (default: the creator)
+	Msgs    []opRec  `json:"msgs,omitempty"`    // the messages of a tx
 }
 
 type feeRec struct {
@@ -74,7 +77,7 @@ const (
 )
 
 var outcomeName = map[int]string{0: "ok", 1: "validate", 2: "notexist", 3: "unauthorized", 4: "invaliddenom", 5: "exists",
-	6: "hassupply", 7: "naming", 8: "funds", 9: "blocked", 10: "addr", 11: "meta", 12: "panic", 13: "badrequest", 99: "other"}
+	6: "hassupply", 7: "naming", 8: "funds", 9: "blocked", 10: "addr", 11: "meta", 12: "panic", 13: "badrequest", 14: "ante", 99: "other"}
 
 type hist struct {
 	e       *env
@@ -207,8 +210,9 @@ type dobs struct {
 	tag    int64
 }
 
-func (h *hist) observe(d string) dobs {
-	ctx := h.e.ctx
+func (h *hist) observe(d string) dobs { return h.observeAt(h.e.ctx, d) }
+
+func (h *hist) observeAt(ctx sdk.Context, d string) dobs {
 	o := dobs{denom: d, supply: new(big.Int), admin: -1, tag: -1}
 	valid := sdk.ValidateDenom(d) == nil
 	if valid {
@@ -863,6 +867,13 @@ func TestCorr(t *testing.T) {
 		for _, o := range ops {
 			o.Sender, o.Denom, o.NewAdmin, o.To = h.expand(o.Sender), h.expand(o.Denom), h.expand(o.NewAdmin), h.expand(o.To)
 			o.MdBase, o.Authority = h.expand(o.MdBase), h.expand(o.Authority)
+			for j := range o.Msgs {
+				m := &o.Msgs[j]
+				m.Sender, m.Denom, m.NewAdmin = h.expand(m.Sender), h.expand(m.Denom), h.expand(m.NewAdmin)
+				for k := range m.Signers {
+					m.Signers[k] = h.expand(m.Signers[k])
+				}
+			}
 			for i := range o.NewFee {
 				o.NewFee[i].Denom = h.expand(o.NewFee[i].Denom)
 			}
